@@ -12,7 +12,7 @@ import impl
 
 PID = "C06"
 LEAN_MODULES = ["BtcHd.Props.C06", "BtcHd.Props.C06Json"]
-LEAN_MODULES_THOROUGH = ['BtcHd.Props.TrWallet', 'BtcHd.Props.TrPaper']
+LEAN_MODULES_THOROUGH = ['BtcHd.Props.TrWallet', 'BtcHd.Props.TrPaper', 'BtcHd.Props.TrText']
 TRUSTED_BASE = common.CORE_TRUSTED + [
     "the JSON text layer is modelled (Model/JsonText.lean: dumps with CPython's ensure_ascii escaping and indent "
     "layout, loads for the emitted subset), proved to round-trip for every value, and compared with CPython's "
